@@ -626,6 +626,9 @@ func c16CountedLoop(fn *ssa.Function) (*c16Loop, string) {
 					l.Strict = true // i != n from 0 by 1 is i < n
 				}
 			}
+			if l.Bound == nil {
+				c16RotatedLoop(l, inc, b)
+			}
 			if l.Bound != nil {
 				loops = append(loops, l)
 			}
@@ -635,6 +638,129 @@ func c16CountedLoop(fn *ssa.Function) (*c16Loop, string) {
 		return nil, fmt.Sprintf("%d counted loops found, expected 1", len(loops))
 	}
 	return loops[0], ""
+}
+
+// c16RotatedLoop recognises the bottom-tested lowering of `for range n` / `for i := range n`:
+//
+//	if start < n { do { body; i' = i + step } while i' < n }
+//
+// which runs the body exactly as `for i := start; i < n; i += step` does. The leaving comparison
+// tests the incremented value; the entry of the loop must be guarded by the same strict
+// comparison of the start constant with the same bound.
+func c16RotatedLoop(l *c16Loop, inc *ssa.BinOp, head *ssa.BasicBlock) {
+	if inc.Referrers() == nil {
+		return
+	}
+	inLoop := func(s *ssa.BasicBlock) bool { return s == head || c16Reaches(s, head) }
+	for _, r := range *inc.Referrers() {
+		bo, ok := r.(*ssa.BinOp)
+		if !ok || bo.Referrers() == nil {
+			continue
+		}
+		var ifi *ssa.If
+		for _, rr := range *bo.Referrers() {
+			if i, ok := rr.(*ssa.If); ok {
+				ifi = i
+			}
+		}
+		if ifi == nil {
+			continue
+		}
+		blk := ifi.Block()
+		tIn, fIn := inLoop(blk.Succs[0]), inLoop(blk.Succs[1])
+		if tIn == fIn {
+			continue
+		}
+		// continue-condition as `inc OP bound`
+		strictLess := func(c *ssa.BinOp, lhs ssa.Value, contOnTrue bool) (ssa.Value, bool) {
+			op := c.Op
+			var bound ssa.Value
+			switch {
+			case c.X == lhs:
+				bound = c.Y
+			case c.Y == lhs:
+				bound = c.X
+				switch op {
+				case token.LSS:
+					op = token.GTR
+				case token.GTR:
+					op = token.LSS
+				case token.LEQ:
+					op = token.GEQ
+				case token.GEQ:
+					op = token.LEQ
+				}
+			default:
+				return nil, false
+			}
+			if !contOnTrue {
+				switch op {
+				case token.GEQ:
+					op = token.LSS
+				case token.GTR:
+					op = token.LEQ
+				case token.LSS:
+					op = token.GEQ
+				case token.LEQ:
+					op = token.GTR
+				}
+			}
+			return bound, op == token.LSS
+		}
+		bound, strict := strictLess(bo, inc, tIn)
+		if bound == nil {
+			continue
+		}
+		// the entry guard: every edge into the loop head from outside the loop comes from a block
+		// ending in `if start < bound` on its continue side
+		guarded := true
+		nOutside := 0
+		for _, pr := range head.Preds {
+			if inLoop(pr) && pr != head && c16Reaches(head, pr) {
+				continue // back edge
+			}
+			if pr == head {
+				continue
+			}
+			nOutside++
+			pif, ok := pr.Instrs[len(pr.Instrs)-1].(*ssa.If)
+			if !ok {
+				guarded = false
+				continue
+			}
+			pc, ok := pif.Cond.(*ssa.BinOp)
+			if !ok {
+				guarded = false
+				continue
+			}
+			var startV ssa.Value
+			for _, e := range l.Phi.Edges {
+				if c, ok := e.(*ssa.Const); ok {
+					startV = c
+				}
+			}
+			var lhs ssa.Value
+			for _, o := range []ssa.Value{pc.X, pc.Y} {
+				if c, ok := o.(*ssa.Const); ok && startV != nil && c.Value != nil && constant.Compare(c.Value, token.EQL, startV.(*ssa.Const).Value) {
+					lhs = o
+				}
+			}
+			if lhs == nil {
+				guarded = false
+				continue
+			}
+			pb, pstrict := strictLess(pc, lhs, pr.Succs[0] == head)
+			if pb != bound || !pstrict {
+				guarded = false
+			}
+		}
+		if !guarded || nOutside == 0 {
+			continue
+		}
+		l.Bound = bound
+		l.Cmp = bo
+		l.Strict = strict
+	}
 }
 
 // ---------------------------------------------------------------------------
@@ -1000,7 +1126,7 @@ func c16FactsOpt(fn *ssa.Function, event func(ssa.Instruction) string, opt *c16F
 		for si, s := range b.Succs {
 			ns := fs.clone()
 			if ifi != nil && len(b.Succs) == 2 && b.Succs[0] != b.Succs[1] {
-				g := fw.Guard{Cond: ifi.Cond, True: si == 0}.Normalize()
+				g := c16ResolveGuard(fw.Guard{Cond: ifi.Cond, True: si == 0}.Normalize())
 				if c, ok := g.Cond.(*ssa.Const); ok {
 					if constant.BoolVal(c.Value) != g.True {
 						continue
@@ -1037,7 +1163,7 @@ func c16FactsOpt(fn *ssa.Function, event func(ssa.Instruction) string, opt *c16F
 			fl.edge[ek][pre.key()] = pre
 			if s.Dominates(b) { // back edge: forget what was learnt inside the loop
 				for v := range ns.facts {
-					if db := c16DefBlock(v); db != nil && s.Dominates(db) {
+					if db := c16DefBlock(v); db != nil && db.Parent() == fn && s.Dominates(db) {
 						delete(ns.facts, v)
 					}
 				}
@@ -1097,6 +1223,26 @@ func c16FactsOpt(fn *ssa.Function, event func(ssa.Instruction) string, opt *c16F
 		}
 	}
 	return fl
+}
+
+// c16ResolveGuard: a branch on a boolean local that is assigned exactly once (`indef := sc == 31`,
+// possibly captured by a closure) is a branch on the assigned condition.
+func c16ResolveGuard(g fw.Guard) fw.Guard {
+	for i := 0; i < 4; i++ {
+		ld, ok := g.Cond.(*ssa.UnOp)
+		if !ok || ld.Op != token.MUL {
+			return g
+		}
+		src := c16ResolveLoad(ld.X)
+		if src == nil {
+			return g
+		}
+		if bt, ok := src.Type().Underlying().(*types.Basic); !ok || bt.Kind() != types.Bool {
+			return g
+		}
+		g = fw.Guard{Cond: src, True: g.True}.Normalize()
+	}
+	return g
 }
 
 // At returns the fact sets at the entry of b (nil when b is unreachable).
